@@ -369,6 +369,17 @@ def run_check(prop, families, level='model_checking', technique='',
             ok, detail = replay(fam, v)
             totals['replays'] += 1
             if not ok:
+                if os.environ.get('VERIF_KEEP_UNREPRODUCED'):
+                    os.makedirs(os.path.join(VERIF, 'replays'), exist_ok=True)
+                    json.dump(dict(property=prop, family=fam.name,
+                                   clause=v['clause'], sig=v.get('sig'),
+                                   desc=v.get('desc'), values=v['values'],
+                                   choices=v.get('choices'),
+                                   replay_detail=detail),
+                              open(os.path.join(
+                                  VERIF, 'replays', 'UNREPRODUCED-%s-%d.json'
+                                  % (prop, len(harness_errors))), 'w'),
+                              indent=1, default=str)
                 harness_errors.append(
                     '%s: clause %s sig %s: model does not reproduce on the '
                     'real application: %s' % (fam.name, v['clause'],
